@@ -35,7 +35,7 @@ POS = {
 
 
 def consts(**kw):
-    d = dict(Skeleton="<<>>", Gaps="{}", Cases="{}", CaseBase='"upper"', MaxOdd=0,
+    d = dict(Skeletons="<<>>", Gaps="{}", Cases="{}", CaseBase='"upper"', MaxOdd=0,
              LitClasses="{" + ", ".join(f'"{c}"' for c in CLASSES) + "}", MaxLit=2, Mode='"literal"', WithHist="FALSE")
     d.update(kw)
     return d
